@@ -48,6 +48,9 @@ checks = {
  "C08": ("exploration", "bounded-exhaustive enumeration of import graphs (routes to the FFI packages: direct, through helpers, hidden behind an FFI; one and two routes) and of import paths over a component alphabet, in a generated module with local stub modules, translated by the real goose; compared with a small reference function",
          "For every enumerated client package: the prelude/footer is that of the unique reachable FFI (two FFIs refused), the Require lines are exactly the sorted, de-duplicated, mapped non-builtin imports (trusted namespace for trusted_*), and the file lands at the mapped package path.",
          "component alphabet and route depth bounded; refusal judged as no-file + non-zero exit", "2 C08"),
+ "C07": ("exploration", "bounded-exhaustive enumeration of out-of-subset and crash-prone constructs x statement positions, each declaration translated and printed separately by the real translator code through an overlay bridge under recover; plus enumeration of good/bad declaration patterns x file layouts through the real binary",
+         "No enumerated declaration makes the translator panic; every error has a documented category and a position inside the offending declaration; k bad declarations give exit 1 and exactly k located errors, nothing written without -ignore-errors and exactly the good declarations with it.",
+         "bridge calls declsOrError/CoqDecl like Decls and File.Write do; catalogue bounds", "2 C07"),
 }
 todo = {}
 man = {
